@@ -1,4 +1,5 @@
 mod algebra;
+mod hist;
 mod marker;
 mod mparse;
 mod worker;
@@ -13,6 +14,8 @@ fn main() {
         match args[2].as_str() {
             "mparse" => worker::serve(&mparse::worker_handle),
             "req" => worker::serve(&req::worker_handle),
+            "hist" => hist::worker_hist(),
+            "threads" => hist::worker_threads(),
             _ => {}
         }
         return;
@@ -29,6 +32,7 @@ fn main() {
         "pyver" => pyver::run(&mut out, tier, seed, &args[5]),
         "mparse" => mparse::run(&mut out, tier, seed, &args[5]),
         "req" => req::run(&mut out, tier, seed, &args[5]),
+        "hist" => hist::run(&mut out, tier, seed, &args[5]),
         "name1" => names::one(&mut out, &util::unhex(&args[5])),
         _ => {
             eprintln!("unknown suite {suite}");
